@@ -2,6 +2,8 @@ package main
 
 import (
 	"fmt"
+	"go/ast"
+	"go/types"
 
 	"golang.org/x/tools/go/ssa"
 )
@@ -220,4 +222,203 @@ func ruleLabelTake(c *Ctx, r *R) {
 			fmt.Sprintf("%s evaluates part of its statement (the call at %s) before it has taken the pending label set: script code run by that operand sees rt.labels still pending, the body block of a function called there consumes them, and a labelled continue / break of this statement loses its target (`outer: for (var k in table()) { for (;;) { continue outer } }` ends after the first key)", ssaFuncName(fn), bad))
 	}
 	r.note("label_taking_evaluators", n)
+}
+
+func init() {
+	register(&Rule{ID: "LEX-regexp-asi", Props: []string{"C03"}, Min: 2,
+		Doc: "T (ES5 7.9.1 after a RegularExpressionLiteral): a regular expression literal is scanned outside the tokeniser - the parser sees the token that begins it (the tokens of the case clause that calls the regexp-literal parser: `/` and `/=`) and re-reads the characters itself, so the tokeniser must have armed automatic semicolon insertion when it produced *that* token, whichever of them it was. In the scanner, the statement that arms it (`insertSemicolon = true`) stands unconditionally beside the assignment that produces those tokens - not under a test of which one it is. Otherwise `var re = /=+/` followed by `var found` on the next line is a syntax error while `/a+/` is fine",
+		Run: ruleLexRegexpASI})
+}
+
+func ruleLexRegexpASI(c *Ctx, r *R) {
+	p := c.Pkg("parser")
+	if p == nil {
+		r.undecided("pkg", "-", "UNRESOLVED package parser")
+		return
+	}
+	info := p.TypesInfo
+	tokName := func(e ast.Expr) string {
+		sel, ok := unparen(e).(*ast.SelectorExpr)
+		if !ok {
+			return ""
+		}
+		if k, isC := info.Uses[sel.Sel].(*types.Const); isC && k.Pkg() != nil && k.Pkg().Name() == "token" {
+			return sel.Sel.Name
+		}
+		return ""
+	}
+	// the tokens that begin a regular expression literal: the case clause whose body calls a function returning *ast.RegExpLiteral
+	starts := map[string]bool{}
+	for _, f := range p.Syntax {
+		ast.Inspect(f, func(n ast.Node) bool {
+			cc, ok := n.(*ast.CaseClause)
+			if !ok {
+				return true
+			}
+			calls := false
+			for _, st := range cc.Body {
+				ast.Inspect(st, func(m ast.Node) bool {
+					if call, ok := m.(*ast.CallExpr); ok {
+						if tv, ok := info.Types[call]; ok && tv.Type != nil && typeStr(tv.Type) == "*ast.RegExpLiteral" {
+							calls = true
+						}
+					}
+					return true
+				})
+			}
+			if calls {
+				for _, e := range cc.List {
+					if t := tokName(e); t != "" {
+						starts[t] = true
+					}
+				}
+			}
+			return true
+		})
+	}
+	if len(starts) == 0 {
+		r.undecided("unresolved:starts", "-", "UNRESOLVED: no case clause of package parser calls a function returning *ast.RegExpLiteral")
+		return
+	}
+	// where the scanner produces them: an assignment whose right side mentions the token, in a statement list
+	found := map[string]bool{}
+	armsSomewhere := func(fd *ast.FuncDecl) bool {
+		yes := false
+		ast.Inspect(fd, func(m ast.Node) bool {
+			if a2, ok := m.(*ast.AssignStmt); ok && len(a2.Lhs) == 1 {
+				if id, ok := unparen(a2.Lhs[0]).(*ast.Ident); ok && id.Name == "insertSemicolon" {
+					yes = true
+				}
+			}
+			return true
+		})
+		return yes
+	}
+	for _, f := range p.Syntax {
+		ast.Inspect(f, func(n ast.Node) bool {
+			if fd, ok := n.(*ast.FuncDecl); ok && (fd.Body == nil || !armsSomewhere(fd)) {
+				return false // not the scanner
+			}
+			var list []ast.Stmt
+			switch x := n.(type) {
+			case *ast.BlockStmt:
+				list = x.List
+			case *ast.CaseClause:
+				list = x.Body
+			default:
+				return true
+			}
+			for _, st := range list {
+				as, ok := st.(*ast.AssignStmt)
+				if !ok || len(as.Rhs) != 1 {
+					continue
+				}
+				if _, isCall := unparen(as.Rhs[0]).(*ast.CallExpr); !isCall {
+					if tokName(as.Rhs[0]) == "" {
+						continue
+					}
+				}
+				var made []string
+				ast.Inspect(as.Rhs[0], func(m ast.Node) bool {
+					if e, ok := m.(ast.Expr); ok {
+						if t := tokName(e); t != "" && starts[t] {
+							made = append(made, t)
+						}
+					}
+					return true
+				})
+				if len(made) == 0 {
+					continue
+				}
+				// the same list arms insertion unconditionally
+				armed := false
+				for _, st2 := range list {
+					if a2, ok := st2.(*ast.AssignStmt); ok && len(a2.Lhs) == 1 && len(a2.Rhs) == 1 {
+						name := ""
+						switch l := unparen(a2.Lhs[0]).(type) {
+						case *ast.Ident:
+							name = l.Name
+						case *ast.SelectorExpr:
+							name = l.Sel.Name
+						}
+						if id, ok := unparen(a2.Rhs[0]).(*ast.Ident); ok && id.Name == "true" && name == "insertSemicolon" {
+							armed = true
+						}
+					}
+				}
+				for _, t := range made {
+					if found[t] {
+						continue
+					}
+					found[t] = true
+					r.check(armed, "arms:"+t, c.Pos(as.Pos()), "automatic semicolon insertion is armed unconditionally where the token is produced",
+						fmt.Sprintf("the scanner produces %s, which can begin a regular expression literal, without arming automatic semicolon insertion beside it (no unconditional `insertSemicolon = true` in the same statement list): the literal is scanned outside the tokeniser, so a line break after `/=+/` does not end the statement - `var re = /=+/` followed by `var found = 1` on the next line is a syntax error (ES5 7.9.1)", t))
+				}
+			}
+			return true
+		})
+	}
+	for t := range starts {
+		if !found[t] {
+			r.undecided("unresolved:"+t, "-", "UNRESOLVED: no assignment of package parser produces "+t)
+		}
+	}
+}
+
+func init() {
+	register(&Rule{ID: "LEX-keyword-lookup", Props: []string{"C04", "C03"}, Min: 1,
+		Doc: "P (ES5 7.6: a unicode escape in an IdentifierName stands for the character, and 7.6.1: a reserved word is not an Identifier however it is spelled): the scanner decides whether an identifier is a reserved word from the *decoded* literal. The call of the keyword table (token.IsKeyword) is therefore not made to depend on a comparison of the raw source character (p.chr, or a copy of it): for `\\u0069f` the raw first character is a backslash. Tests of the literal itself (its length) and the selection of the identifier arm by a predicate call are what the pinned tree has",
+		Run: ruleLexKeywordLookup})
+}
+
+func ruleLexKeywordLookup(c *Ctx, r *R) {
+	n := 0
+	fromChr := func(v ssa.Value) bool {
+		for i := 0; i < 4; i++ {
+			switch x := v.(type) {
+			case *ssa.Convert:
+				v = x.X
+				continue
+			case *ssa.UnOp:
+				return isFieldAddr(x.X, "parser", "chr")
+			}
+			break
+		}
+		return false
+	}
+	for _, fn := range c.AllSrcFuncs("parser") {
+		for _, b := range fn.Blocks {
+			for _, ins := range b.Instrs {
+				call, ok := ins.(*ssa.Call)
+				if !ok {
+					continue
+				}
+				cal := call.Call.StaticCallee()
+				if cal == nil || cal.Name() != "IsKeyword" || cal.Pkg == nil || cal.Pkg.Pkg.Path() != ottoPath+"/token" {
+					continue
+				}
+				n++
+				bad := ""
+				for _, d := range fn.Blocks {
+					iff, ok := d.Instrs[len(d.Instrs)-1].(*ssa.If)
+					if !ok || d == b || !d.Dominates(b) {
+						continue
+					}
+					if reaches(d.Succs[0], b, map[*ssa.BasicBlock]bool{d: true}) && reaches(d.Succs[1], b, map[*ssa.BasicBlock]bool{d: true}) {
+						continue
+					}
+					for _, cmp := range comparisonsOf(iff.Cond, 0) {
+						if fromChr(cmp.X) || fromChr(cmp.Y) {
+							bad = c.Pos(instrPos(iff))
+						}
+					}
+				}
+				r.check(bad == "", ssaFuncName(fn)+":IsKeyword", c.Pos(instrPos(call)), "the keyword lookup does not depend on a comparison of the raw source character",
+					fmt.Sprintf("%s looks the identifier up in the keyword table only when a comparison of the raw source character holds (at %s): an identifier whose first character is written as a unicode escape begins with a backslash in the source, so `var \\u0069f = 1` (the reserved word `if`) is accepted as an identifier - ES5 7.6 / 7.6.1", ssaFuncName(fn), bad))
+			}
+		}
+	}
+	if n == 0 {
+		r.undecided("unresolved:lookup", "-", "UNRESOLVED: no call of token.IsKeyword in package parser")
+	}
 }
